@@ -4,7 +4,6 @@ import (
 	"bytes"
 	"errors"
 	"fmt"
-	"io"
 	"os"
 	"os/exec"
 	"path/filepath"
@@ -285,29 +284,23 @@ func RunCommand(cmdArgs []string, runDir string) (map[string]interface{}, error)
 		cmd.Dir = runDir
 	}
 
-	stderrPipe, err := cmd.StderrPipe()
-	if err != nil {
-		return nil, err
-	}
-	stdoutPipe, err := cmd.StdoutPipe()
-	if err != nil {
-		return nil, err
-	}
+	// Let os/exec copy both streams concurrently. Draining the stdout pipe to
+	// EOF before reading the stderr pipe blocks forever once the command has
+	// filled the stderr pipe buffer.
+	var stdout, stderr bytes.Buffer
+	cmd.Stdout = &stdout
+	cmd.Stderr = &stderr
 
 	if err := cmd.Start(); err != nil {
 		return nil, err
 	}
 
-	// TODO: duplicate stdout, stderr
-	stdout, _ := io.ReadAll(stdoutPipe)
-	stderr, _ := io.ReadAll(stderrPipe)
-
 	retVal := waitErrToExitCode(cmd.Wait())
 
 	return map[string]interface{}{
 		"return-value": float64(retVal),
-		"stdout":       string(stdout),
-		"stderr":       string(stderr),
+		"stdout":       stdout.String(),
+		"stderr":       stderr.String(),
 	}, nil
 }
 
